@@ -290,6 +290,37 @@ func localSlice(v ssa.Value) bool {
 		}
 		seen[v] = true
 		v = origin(v)
+		// a variable that is assigned more than once (`xs = append([]T(nil), xs...)`): the
+		// store that reaches this load – the latest one dominating it – decides
+		if ld, ok := v.(*ssa.UnOp); ok {
+			if al, ok := ld.X.(*ssa.Alloc); ok {
+				var best *ssa.Store
+				for _, st := range storesTo(al) {
+					dom := st.Block() == ld.Block() && indexIn(st.Block(), st) < indexIn(ld.Block(), ld) || (st.Block() != ld.Block() && st.Block().Dominates(ld.Block()))
+					if !dom {
+						continue
+					}
+					if best == nil || best.Block().Dominates(st.Block()) && (best.Block() != st.Block() || indexIn(best.Block(), best) < indexIn(st.Block(), st)) {
+						best = st
+					}
+				}
+				if best != nil {
+					// no other store may come between it and the load
+					other := false
+					for _, st := range storesTo(al) {
+						if st != best && !st.Block().Dominates(best.Block()) {
+							other = true
+						}
+						if st != best && st.Block() == best.Block() && indexIn(st.Block(), st) > indexIn(best.Block(), best) {
+							other = true
+						}
+					}
+					if !other {
+						return walk(best.Val)
+					}
+				}
+			}
+		}
 		switch x := v.(type) {
 		case *ssa.Const:
 			return x.Value == nil
